@@ -189,6 +189,7 @@ def _write_and_run(shard: int, items: List[KItem], prop: str, harness_timeout: i
         u, mdl = its[0].unit, its[0].mdl
         Lmax = max(i.L for i in its)
         hg = harness.HarnessGen(mdl, Lmax, K=its[0].K)
+        hg.static_octets = {i.type: getattr(i, 'static_octets', 0) for i in its}
         hg.both_calls = all(i.cls == 'cheap' for i in its) or os.environ.get('VERIF_TIER_EFF') == 'thorough' 
         hs = [(i.kind, i.type, i.L) for i in its]
         mods[mod] = hg.module(u.text, hs)
@@ -274,7 +275,7 @@ def run_and_judge(prop: str, tier: str, seed: int, items: List[KItem], info: dic
         out.inconclusive_item(f'harness crate shard {i} did not build/run: {tail[-700:]}')
     # adaptive bound reduction: one retry of timeouts / errors at a smaller bound
     retry = [it for it in items if it.result is None or it.result.status in ('timeout', 'error')]
-    retry = [it for it in retry if not errors and it.cls != 'heavy']
+    retry = [it for it in retry if not errors and it.cls != 'heavy' and it.kind in ('c01', 'c04', 'c18d', 'c06d')]
     if retry:
         for it in retry:
             mn = max(it.mdl.min_len(x) for x in [it.type] + it.mdl.descendants(it.type)) if it.type in it.mdl.plans else 0
